@@ -40,6 +40,15 @@ def run_case(case):
 
     def mk_cfg(contacts):
         def cfg(d, ca):
+            if case.get('split'):
+                # the file-mode and owner options live in an included file; the main file has its own [global] table
+                c = S.std_config(d, ca, [{'name': 'c0', 'identifiers': S.ids('m%d.example.org' % case['i']), 'kp_reuse': case['kp_reuse']}],
+                                 accounts=[{'name': 'acc1', 'contacts': contacts}])
+                with open(d + '/modes.toml', 'w') as f:
+                    f.write(C.toml_dumps({'global': g}) if g else '')
+                out = {'include': ['modes.toml']}
+                out.update(c)
+                return out
             return S.std_config(d, ca, [{'name': 'c0', 'identifiers': S.ids('m%d.example.org' % case['i']), 'kp_reuse': case['kp_reuse']}],
                                 accounts=[{'name': 'acc1', 'contacts': contacts}], global_extra=g)
         return cfg
@@ -179,7 +188,7 @@ def run(tier):
     cases = []
     n = 96 if tier == 'quick' else 800
     for i in range(n):
-        c = {'i': i, 'umask': UMASKS[i % 4], 'kp_reuse': bool(i % 3 == 0),
+        c = {'i': i, 'umask': UMASKS[i % 4], 'kp_reuse': bool(i % 3 == 0), 'split': bool(i % 5 == 2),
              'pk_file_mode': r.choice(MODES + [None, None]), 'cert_file_mode': r.choice(MODES + [None, None]),
              'pk_file_user': r.choice(USERS), 'pk_file_group': r.choice(GROUPS),
              'cert_file_user': r.choice(USERS), 'cert_file_group': r.choice(GROUPS)}
@@ -195,7 +204,7 @@ def run(tier):
         chk.count('file_creations_checked', res['creates'])
         chk.count('file_rewrites_checked', res['edits'])
         if res['creates']:
-            chk.distinct.add(('daemon', c['umask'], c['pk_file_mode'], c['cert_file_mode'], c['pk_file_user'], c['pk_file_group'], c['cert_file_user'], c['cert_file_group']))
+            chk.distinct.add(('daemon', c['split'], c['umask'], c['pk_file_mode'], c['cert_file_mode'], c['pk_file_user'], c['pk_file_group'], c['cert_file_user'], c['cert_file_group']))
         if not res['problems'] and res['creates']:
             chk.sample({k: (oct(v) if isinstance(v, int) and k.endswith('mode') else v) for k, v in c.items() if k != 'i'})
         seen = set()
